@@ -1,5 +1,5 @@
 use super::interfaces::{is_iseq, is_iseqable};
-use parking_lot::ReentrantMutex;
+use parking_lot::{ReentrantMutex, ReentrantMutexGuard};
 use pyo3::exceptions::PyTypeError;
 use pyo3::prelude::*;
 use pyo3::sync::PyOnceLock;
@@ -417,6 +417,18 @@ enum LazySeqState {
     Realized(Py<PyAny>),
 }
 
+fn lock_without_gil<'a>(
+    py: Python<'_>,
+    lock: &'a ReentrantMutex<RefCell<LazySeqState>>,
+) -> ReentrantMutexGuard<'a, RefCell<LazySeqState>> {
+    loop {
+        if let Some(g) = lock.try_lock() {
+            return g;
+        }
+        py.detach(std::thread::yield_now);
+    }
+}
+
 #[pyclass(subclass, generic, frozen, module = "basilisp._lang.seq")]
 pub struct LazySeq {
     lock: ReentrantMutex<RefCell<LazySeqState>>,
@@ -470,7 +482,7 @@ impl LazySeq {
     // before calling `(seq ...)` on the result, which is cached.
 
     fn _compute_seq(&self, py: Python) -> PyResult<Py<PyAny>> {
-        let mutex = self.lock.lock();
+        let mutex = lock_without_gil(py, &self.lock);
         let state = mutex.borrow();
         match state.deref() {
             LazySeqState::Computing => return Ok(py.None()),
@@ -525,7 +537,7 @@ impl LazySeq {
     }
 
     fn seq(&self, py: Python) -> PyResult<Py<PyAny>> {
-        let mutex = self.lock.lock();
+        let mutex = lock_without_gil(py, &self.lock);
         let state = mutex.borrow();
         if let LazySeqState::Realized(seq) = state.deref() {
             return Ok(seq.as_ref().clone_ref(py));
@@ -622,7 +634,7 @@ impl LazySeq {
 
     #[getter(is_realized)]
     fn is_realized<'py>(&self, py: Python<'py>) -> PyResult<Borrowed<'py, 'py, PyBool>> {
-        let mutex = self.lock.lock();
+        let mutex = lock_without_gil(py, &self.lock);
         let state = mutex.deref().borrow();
         Ok(PyBool::new(py, matches!(*state, LazySeqState::Realized(_))))
     }
